@@ -68,6 +68,41 @@ CLAIMS.update({
          "differing only in the .zero directive, agreement across word sizes for value-bounded programs, --lint rejects or changes nothing.",
          "machine-checked proof (Lean 4) of determinism + cross-configuration differential", "6 C18"),
 })
+CLAIMS.update({
+ 'C06': ("proof", "Proof, partial. Proved over the regenerated grammar tables: the transcribed context expressions equal Python's IntFlag "
+         "evaluation on every valid context value; the set of reachable contexts is closed; the permissions of you / try-body / handler / "
+         "?? operand / defeat / ordinary / global contexts and the loop flag equal the documented table (kernel-evaluated over all "
+         "reachable contexts); the context tests of the grammar are pinned. The Lean parser model uses exactly these definitions and is "
+         "tied to hidc.parser by the parse suite (trees, error class, error position). Soundness and completeness of whole parses are "
+         "validated by exhaustive placement enumeration against an independent permission table, not yet proved by induction.",
+         "machine-checked proof (Lean 4) over regenerated context algebra + exhaustive placement enumeration", "6 C06"),
+ 'C07': ("proof", "Proof, partial. Proved about the typechecker model (tied by the tc suite: identical typed trees / error class on generated "
+         "programs, type mutations and ~300 repository test snippets): coercion lattice and explicit-cast table equal the documented ones on "
+         "all 15 scalar/array types; literal shrinkability and its loss on substitution and explicit cast; overload resolution = exact "
+         "match, else first declared overload all arguments are coercible to (resolve_spec); narrowing and const-array rejections. "
+         "Completeness w.r.t. a declarative typing relation is not proved; 72 rule programs and 1920 overload calls are executed.",
+         "machine-checked proof (Lean 4) about a hand-written model + typed-tree correspondence", "6 C07"),
+ 'C10': ("proof", "Proof, partial. The front-end models are total Lean functions tied to the implementation on error class and position; "
+         "string/character data can never make the output unassemblable (escape round trip). NOT MODELLED (runtime): exit status, stderr and "
+         "output file of the hidc process are observed on the real command-line tool; absence of internal exceptions on four input "
+         "streams x option combinations is validated in-process, every accepted output is assembled by the Lean assembler.",
+         "machine-checked proof (Lean 4) of model totality and rendering + totality search in-process and on the CLI", "6 C10"),
+ 'C11': ("proof", "Proof, partial. levels_documented: the operator tables regenerated from grammar.py equal the documented table and levels "
+         "are disjoint; the parser model folds left over exactly these tables and is tied to hidc.parser by the parse suite. The print/parse "
+         "round trip is validated exhaustively on all operator pairs (with unary, is, postfix, parentheses mixed in), all triples "
+         "(thorough) and random trees against an independent precedence-climbing parser; the inductive proof is outstanding.",
+         "machine-checked proof (Lean 4) over regenerated precedence tables + exhaustive pair/triple enumeration", "6 C11"),
+ 'C12': ("proof", "Proof, partial. Proved about the lexer model instantiated with the tables and Unicode classes regenerated from the running "
+         "Python: integer literals for every digit string, base and underscore placement; keyword/flavour classification of the whole "
+         "keyword table; longest symbol match independent of the order among equal-length symbols (the source's set-order dependence); "
+         "escape table. The model is tied by the lex suite (tokens, spans, error positions). Layout independence and span exactness are "
+         "validated by re-layout, not proved.", "machine-checked proof (Lean 4) about a hand-written model + token-level correspondence", "6 C12"),
+ 'C16': ("proof", "Proof of (a) and (c): for every well-formed block, exit modes lacking NONE imply the block cannot complete normally, and "
+         "whatever follows such a prefix is unreachable - against an abstract control-flow semantics in which every condition may go either "
+         "way (induction over derivations, all programs). The analysis model is tied to blocks.py by recomputing the mode of every block "
+         "of every accepted function. (b) missing-return rejection is part of the tc suite; (d) the machine-level statement is validated "
+         "by the fall-through monitor.", "machine-checked proof (Lean 4) of the exit-mode analysis + mode correspondence + VM monitor", "6 C16"),
+})
 PENDING = {}
 def main():
     props = [json.loads(l) for l in open(os.path.join(VERIF, 'properties.jsonl'))]
